@@ -18,7 +18,7 @@ def scripts(rng, tier, n=None):
     n = n or (16 if tier == "quick" else 200)
     for k in range(n):
         ssrc = rng.randrange(2, 1 << 32)
-        p = rand_policy(rng, ssrc=ssrc, valid=True)
+        p, _ = strat_policy(rng, k, ssrc=ssrc, valid=True)
         L = [p.line(1), "create 1 1", "create 2 1"]
         # multi-stream session for the "never more than reported" part
         q = rand_policy(rng, ssrc=ssrc ^ 9, valid=True, mki=p.use_mki)
